@@ -136,7 +136,18 @@ func (r *cacheRun) put(keep bool, k, v []byte, now, exp int64) {
 					return e2
 				})
 			} else {
-				ev, added = r.c.Put(k, append([]byte{}, v...), tm(now), tm(exp))
+				kb, vb := append([]byte{}, k...), append([]byte{}, v...)
+				ev, added = r.c.Put(kb, vb, tm(now), tm(exp))
+				if ev != nil { // (read the victim before the caller's buffers are reused)
+					victim = append([]byte{}, ev.Key...)
+					evc := *ev
+					evc.Key = victim
+					evc.Value = append([]byte{}, ev.Value...)
+					ev = &evc
+				}
+				for i := range kb { // the caller reuses its key buffer
+					kb[i] ^= 0x5a
+				}
 			}
 			if ev != nil {
 				victim = ev.Key
